@@ -103,16 +103,19 @@ impl<S: Storage> IterManager for LocalMutRingBuf<S> {
         unsafe { *self.cons_alive.get() }
     }
 
-    fn set_prod_alive(&self, alive: bool) {
+    fn set_prod_alive(&self, alive: bool) -> bool {
         unsafe { *self.prod_alive.get() = alive; }
+        !(self.prod_alive() || self.work_alive() || self.cons_alive())
     }
 
-    fn set_work_alive(&self, alive: bool) {
+    fn set_work_alive(&self, alive: bool) -> bool {
         unsafe { *self.work_alive.get() = alive; }
+        !(self.prod_alive() || self.work_alive() || self.cons_alive())
     }
 
-    fn set_cons_alive(&self, alive: bool) {
+    fn set_cons_alive(&self, alive: bool) -> bool {
         unsafe { *self.cons_alive.get() = alive; }
+        !(self.prod_alive() || self.work_alive() || self.cons_alive())
     }
 }
 
